@@ -25,6 +25,13 @@ def validate_case(fa, cid, raw, datum, others, strict, tuples, kind):
         c["sl"] = {"ok": True, "bytes": list(fo.getvalue()), "back": outcome_val(lambda: fa.schemaless_reader(io.BytesIO(fo.getvalue()), raw))}
     except Exception as e:  # noqa: BLE001
         c["sl"] = {"ok": False, "exc": proj.pexc(e)["exc"]}
+    for key, kw in (("wstrict", {"strict": True}), ("wsad", {"strict_allow_default": True})):
+        fo2 = io.BytesIO()
+        try:
+            fa.schemaless_writer(fo2, raw, datum, disable_tuple_notation=not tuples, **kw)
+            c[key] = {"ok": True, "bytes": list(fo2.getvalue())}
+        except Exception as e:  # noqa: BLE001
+            c[key] = {"ok": False, "exc": proj.pexc(e)["exc"], "bytes": []}
     # writer-side gate: others, datum, others through Writer(validator=True); a rejected record must leave no byte behind
     out = io.BytesIO()
     w = W.Writer(out, raw, codec="null", sync_interval=10 ** 6, validator=True, sync_marker=bytes(range(16)),
